@@ -23,7 +23,7 @@ using mdl::TA; using mdl::FA;
 namespace {
 
 const char* const REP[] = {"expl", "bdd-td", "bdd-bu", "expl_fa"};
-const char* const CMD[] = {"load", "union", "isect", "incl", "witness", "cmpl", "red"};
+const char* const CMD[] = {"load", "union", "isect", "incl", "witness", "cmpl", "red", "sim"};
 
 std::string g_dir;
 
@@ -78,6 +78,7 @@ std::string prop_for(long rep, long cmd) {
 		case 3: return rep == 0 ? "C01" : (rep == 3 ? "C09" : "C07");
 		case 4: return rep == 3 ? "C10" : "C15";
 		case 5: return "C06";
+		case 7: return "C04";
 		default: return "C05";
 	}
 }
@@ -101,8 +102,8 @@ const int N_ISEL = 11;
 void split2(const std::string& lit, std::string& a, std::string& b) { size_t q = lit.find(" || "); a = lit.substr(0, q); b = q == std::string::npos ? "" : lit.substr(q + 4); }
 
 void op_cli(const Step& s) {
-	long rep = ((s.arg(0) % 4) + 4) % 4, cmd = ((s.arg(1) % 7) + 7) % 7, prune = ((s.arg(2) % 3) + 3) % 3, sel = ((s.arg(3) % N_ISEL) + N_ISEL) % N_ISEL;
-	if ((cmd == 5 || cmd == 6) && rep != 0) throw Skip();     // complement / reduction: explicit tree automata only
+	long rep = ((s.arg(0) % 4) + 4) % 4, cmd = ((s.arg(1) % 8) + 8) % 8, prune = ((s.arg(2) % 3) + 3) % 3, sel = ((s.arg(3) % N_ISEL) + N_ISEL) % N_ISEL;
+	if ((cmd == 5 || cmd == 6 || cmd == 7) && rep != 0) throw Skip();     // complement / reduction / simulation: explicit tree automata only
 	if (cmd == 4 && (rep == 1 || rep == 2)) throw Skip();     // witness: not implemented for the BDD encodings
 	if (cmd == 3) {
 		// selections that exist for the representation (and a few that do not: they must end in an error, not in a verdict)
@@ -121,11 +122,19 @@ void op_cli(const Step& s) {
 	std::string fa_path = dir() + "/a.timbuk", fb_path = dir() + "/b.timbuk";
 	write_file(fa_path, ta); write_file(fb_path, tb);
 	std::vector<std::string> args = {"-r", REP[rep]};
+	const bool sim_up = cmd == 7 && (sel & 1);
+	if (cmd == 7) {
+		// the tool does not prune before `sim` (it ignores -p / -s there), and the upward simulation is defined for automata
+		// without useless states (C04): the client hands over a trimmed automaton, as et_sim does through the API
+		prune = 0;
+		if (sim_up) { A = mdl::trim_useless(A); if (A.states().empty()) throw Skip(); ta = mdl::to_timbuk(A, "q", nullptr, (s.arg(4) & 1) != 0); write_file(fa_path, ta); }
+	}
 	if (prune == 1 && cmd != 3 && cmd != 4) args.push_back("-p"); else if (prune == 2 && cmd != 3 && cmd != 4) args.push_back("-s"); else prune = 0;
 	if (cmd == 3) { args.push_back("-o"); args.push_back(ISEL[sel].opts); }
+	if (cmd == 7) { args.push_back("-o"); args.push_back(sim_up ? "dir=up" : "dir=down"); }
 	args.push_back(CMD[cmd]); args.push_back(fa_path);
 	if (cmd >= 1 && cmd <= 3) args.push_back(fb_path);
-	const std::string site = std::string("cli:") + REP[rep] + ":" + CMD[cmd] + (prune == 1 ? ":-p" : prune == 2 ? ":-s" : "") + (cmd == 3 ? std::string(":") + ISEL[sel].name : std::string());
+	const std::string site = std::string("cli:") + REP[rep] + ":" + CMD[cmd] + (prune == 1 ? ":-p" : prune == 2 ? ":-s" : "") + (cmd == 3 ? std::string(":") + ISEL[sel].name : std::string()) + (cmd == 7 ? (sim_up ? ":up" : ":down") : "");
 	std::string out;
 	api_begin(); api_site(site, (cmd == 3 || cmd == 5) ? BUDGET_INCONCLUSIVE : BUDGET_HANG, (cmd == 3 || cmd == 5) ? 3000000 : 0);
 	int rc = run_vata(args, out);
@@ -143,6 +152,28 @@ void op_cli(const Step& s) {
 		return;
 	}
 	if (rc != 0) { violation(P + ".cli-failed", site, "the tool failed on a well-formed request (exit " + std::to_string(rc) + ")\n  a: " + la + "\n  b: " + lb); return; }
+	if (cmd == 7) {
+		// `vata sim`: first line "index: state name, ...", second line "{(i, j), ...}" over the indices
+		const TA& T = A;
+		size_t nl = out.find('\n'); if (nl == std::string::npos) { violation(P + ".cli-output-well-formed", site, "no index line: " + escape(out.substr(0, 200))); return; }
+		std::map<long, long> idx2state; std::string l1 = out.substr(0, nl), l2 = out.substr(nl + 1);
+		{ size_t p = 0; while (p < l1.size()) { size_t c = l1.find(": ", p), e = l1.find(", ", c == std::string::npos ? p : c); if (c == std::string::npos || e == std::string::npos) break; long i = atol(l1.substr(p, c - p).c_str()); std::string nm = l1.substr(c + 2, e - c - 2); if (nm.size() < 2 || nm[0] != 'q') { violation(P + ".cli-output-well-formed", site, "unexpected state name '" + escape(nm) + "'"); return; } idx2state[i] = atol(nm.c_str() + 1); p = e + 2; } }
+		std::set<long> listed; for (auto& kv : idx2state) listed.insert(kv.second);
+		if (listed != T.states()) { violation(P + ".cli-sim-states", site, "`vata sim` lists other states than the automaton has\n  a: " + la + "\n  output: " + escape(out.substr(0, 300))); return; }
+		mdl::Rel got; bool bad = false;
+		{ size_t p = 0; while ((p = l2.find('(', p)) != std::string::npos) { size_t c = l2.find(", ", p), e = l2.find(')', p); if (c == std::string::npos || e == std::string::npos || c > e) { bad = true; break; } long i = atol(l2.substr(p + 1, c - p - 1).c_str()), j = atol(l2.substr(c + 2, e - c - 2).c_str()); if (!idx2state.count(i) || !idx2state.count(j)) { bad = true; break; } got.insert(std::make_pair(idx2state[i], idx2state[j])); p = e + 1; } }
+		if (bad) { violation(P + ".cli-output-well-formed", site, "the relation line cannot be read: " + escape(l2.substr(0, 200))); return; }
+		mdl::Rel want = sim_up ? mdl::up_sim(T) : mdl::down_sim(T);
+		count(c_sim_pairs_checked, listed.size() * listed.size());
+		if (got != want) {
+			std::string diff; int n = 0;
+			for (auto& pr : got) if (!want.count(pr) && n++ < 4) diff += " extra(" + std::to_string(pr.first) + "," + std::to_string(pr.second) + ")";
+			for (auto& pr : want) if (!got.count(pr) && n++ < 8) diff += " missing(" + std::to_string(pr.first) + "," + std::to_string(pr.second) + ")";
+			violation(sim_up ? "C04.up-sim" : "C04.down-sim", site, "the relation printed by `vata sim` is not the greatest " + std::string(sim_up ? "upward" : "downward") + " simulation:" + diff + "\n  a: " + la + "\n  automaton it was computed on: " + mdl::to_lit(T));
+		}
+		note_case(mix64(hash_str(la), 700 + uint64_t(sim_up) * 2 + uint64_t(prune)));
+		return;
+	}
 	mdl::Desc d; std::string err;
 	if (!mdl::parse_timbuk_ref(out, d, &err)) { violation(P + ".cli-output-well-formed", site, "the printed automaton is not well-formed Timbuk: " + err + "\n" + escape(out.substr(0, 300))); return; }
 	int e = -1; std::string what;
